@@ -1,6 +1,7 @@
 import DSymVerif.Driver.SymIO
 import DSymVerif.Model.Covers
 import DSymVerif.Model.CoversWired
+import DSymVerif.Model.CoversAll
 import DSymVerif.Spec.C05
 
 open DSymVerif DSymVerif.Proto DSymVerif.DS DSymVerif.Covers
@@ -71,9 +72,6 @@ def hypTables (s : RawSym) (gd : GroupData) : List (String × Bool) :=
         ("theorem-hypothesis-holds:edge-words-inverse-or-mirror-involution", edgeWordsOkB y t gd.e2w),
         ("theorem-hypothesis-holds:every-edge-word-traces-through-the-table", allTracesDefined y t gd.e2w) ]
   | _ => [("theorem-hypothesis-holds:input-symbol-builds", false)]
-
-/-- search-node budget for the model of `coset_tables` (the Rust iterator has none) -/
-def nodeFuel : Nat := 50000000
 
 /-- the fully wired models (fundamental_group → coset_table(s) → cover_for_table) are run when
     the tables the library produced are small enough; beyond, the model is `coverForTable` on the
@@ -149,7 +147,7 @@ def handler : Handler := fun op inp out =>
       let g := specG s
       let model := match s.toSym with
         | .ok y =>
-          if wiredOK gd then encCovers (Covers.covers y k nodeFuel)
+          if wiredOK gd then encCovers (Covers.coversAll y k)
           else encCovers (coversOfTables y gd.tables gd.e2w)
         | _ => "PANIC"
       match run P.syms out with
